@@ -48,6 +48,9 @@ func (p SliceLossIndication) Marshal() ([]byte, error) {
 	binary.BigEndian.PutUint32(rawPacket, p.SenderSSRC)
 	binary.BigEndian.PutUint32(rawPacket[4:], p.MediaSSRC)
 	for i, s := range p.SLI {
+		if s.First > 0x1FFF || s.Number > 0x1FFF || s.Picture > 0x3F {
+			return nil, errFieldOutOfRange
+		}
 		sli := ((uint32(s.First) & 0x1FFF) << 19) |
 			((uint32(s.Number) & 0x1FFF) << 6) |
 			(uint32(s.Picture) & 0x3F)
